@@ -193,6 +193,7 @@ def finish(ctx, explanation, rule_text, t0, seed=0, assumptions=()):
         "bodies_analysed_by_this_check": len(ctx.bodies_touched),
         "crates": st["crates"],
         "notes": ctx.info[:40],
+        "helpers_inlined": ctx.P.inline_report,
         "exhaustive": True,
     }
     cov.update(ctx.extra)
